@@ -4,9 +4,12 @@ case: ( (appname ...) (rootlevel (appname ...)) ((name level additive (appname .
 result: per probe the appender indices whose append was called."""
 import itertools
 
-RULE = ("structured sweep: every subset of <= 3 logger names from a pool of 12 names over components "
+RULE = ("component alphabet includes '-', '_', '.', digits, upper/lower-case pairs, a space and non-ASCII "
+        "letters; every logger name is also probed under its spelling variants ('-'<->'_', case, '.'<->'::', "
+        "added/removed space), which routing must keep apart.  structured sweep: every subset of <= 3 logger names from a pool of 12 names over components "
         "{a,b,ab,''} up to depth 3 (incl. a leading '::', textual-but-not-component prefixes, implied "
-        "intermediates), several declaration orders each, every additive combination, levels from "
+        "intermediates), plus every subset of <= 2 names from a spelling pool (my-app/my_app, App/app, a.b, "
+        "a::b-c/a::b_c, 'x y', ñ/Ñ, a1, ...), several declaration orders each, every additive combination, levels from "
         "{Off,Warn,Trace}+random, 2 appenders with random (repeated) attachments; then random configs with "
         "up to 12 loggers, depth <= 6, ASCII and multi-byte components, up to 4 appenders.  Every config is "
         "probed with every logger name, its parent, a child, the textual sibling (name+'x', name minus a "
@@ -29,6 +32,20 @@ STRAY = ["", ":", "::", ":::", "::::", "a:", "a:::b", "a::::b", "::a", "a::", "a
 LEVELS3 = [0, 2, 5]
 UNI = ["é", "ß", "日本", "😀", "á"]
 
+# spelling pool: '-' vs '_', case pairs, '.', digits, space, non-ASCII case pair - all accepted by
+# check_logger_name and all DIFFERENT names for routing (segments are compared byte for byte)
+POOL2 = ["my-app", "my_app", "App", "app", "my-app::db", "my_app::db", "a.b", "a::b-c", "a::b_c", "x y", "ñ", "Ñ", "a1",
+         "my-app::my_mod"]
+WIDE = ["my-app", "my_app", "App", "app", "a-b", "a_b", "-", "_", "a.b", ".", "a1", "1", "01", "x y", " a", "a ", "ñ", "Ñ",
+        "A", "B", "aB"]
+
+
+def variants(n):
+    """spelling variants of a name that routing must NOT identify with it"""
+    vs = [n.replace("-", "_"), n.replace("_", "-"), n.lower(), n.upper(), n.swapcase(), n.replace(".", "::"),
+          n.replace(" ", ""), n + " ", " " + n, n.replace("::", "."), n.replace("1", "2")]
+    return [v for v in vs if v != n]
+
 
 def probes_for(names, rng, extra=()):
     ts = []
@@ -44,6 +61,8 @@ def probes_for(names, rng, extra=()):
         ts.append(n + ":::a")
         if len(n) > 1:
             ts.append(n[:-1])
+        ts += variants(n)
+        ts += [v + "::x" for v in variants(n)[:3]]
         if len(comps) > 1:
             ts.append("::".join(comps[:-1]))
             ts.append("::".join(comps[:-1]) + "::zz")
@@ -91,10 +110,22 @@ def cases(rng, tier):
                         loggers.append([n, rng.choice(LEVELS3 + [rng.below(6)]), f, rand_attach(rng, apps)])
                     root = [rng.choice(LEVELS3), rand_attach(rng, apps, 2)]
                     out.append(mk_case(apps, root, loggers, rng))
+    # spelling sweep: '-'/'_', case, '.', digit, space, non-ASCII names side by side
+    for k in (1, 2):
+        for sub in itertools.combinations(POOL2, k):
+            for order in ([list(sub)] if k == 1 else [list(sub), list(reversed(sub))]):
+                for _rep in range(1 if tier == "quick" else 3):
+                    loggers = [[n, rng.choice(LEVELS3 + [rng.below(6)]), rng.below(2), rand_attach(rng, apps)]
+                               for n in order]
+                    root = [rng.choice(LEVELS3), rand_attach(rng, apps, 2)]
+                    out.append(mk_case(apps, root, loggers, rng))
     # random configs
     n_rand = 1200 if tier == "quick" else 30000
     for _ in range(n_rand):
         alpha = ["a", "b", "ab", "c"] + ([rng.choice(UNI), rng.choice(UNI)] if rng.chance(1, 3) else [])
+        if rng.chance(1, 2):
+            w = rng.choice(WIDE)
+            alpha += [w, rng.choice([v for v in variants(w) if v and ":" not in v] or WIDE), rng.choice(WIDE)]
         na = rng.range(0, 4)
         anames = rng.shuffle(["A0", "x", "", "日", "a::b"])[:na]
         nl = rng.range(1, 12)
